@@ -139,6 +139,10 @@ fn shape_exec(func: &str, a: &mut Args) -> String {
         "mp3_tadd_tensor" => { let x = mp3(a); let y = mp3(a); let m = d3::iso(a);
             let l = (x + y).transform_by(&m); let r = x.transform_by(&m) + y.transform_by(&m);
             format!("{} {}", fm3(&l.reconstruct_inertia_matrix()), fm3(&r.reconstruct_inertia_matrix())) }
+        // world-space accessors: `world_com(pos)` (2-D, 3-D) and the 2-D `world_inv_inertia_sqrt(rot)`
+        "mp2_world" => { let p = mp2(a); let m = d2::iso(a);
+            format!("{} {}", d2::fp(&p.world_com(&m)), ff(p.world_inv_inertia_sqrt(&m.rotation))) }
+        "mp3_world_com" => { let p = mp3(a); let m = d3::iso(a); d3::fp(&p.world_com(&m)) }
         _ => "nofn".into(),
     }
 }
@@ -297,5 +301,10 @@ pub fn gen(r: &mut Rng, thorough: bool, v: &mut Vec<(String, String)>) {
           let ts = format!("{} {} {}", hmp3(&xa), hmp3(&ya), d3::hiso(&mi));
           v.push(("mp3_tadd".into(), ts.clone()));
           v.push(("mp3_tadd_tensor".into(), ts)); }
+        // ---- world-space accessors
+        { let mi2 = d2::gen_iso(r, lat, 100.0);
+          v.push(("mp2_world".into(), format!("{} {}", hmp2(&x2), d2::hiso(&mi2))));
+          let mi3 = d3::gen_iso(r, lat, 100.0);
+          v.push(("mp3_world_com".into(), format!("{} {}", hmp3(&x3), d3::hiso(&mi3)))); }
     }
 }
